@@ -223,6 +223,11 @@ def gen_atom(R, d, opts):
     if r < 0.78:
         return R.choice([Group(Lit('ab'), 'i'), Group(Lit('é'), 'i'), Group(Cls([('a', 'c')]), 'i'),
                          Group(Lit('ǆ'), 'i'), Group(Lit('k'), 'i'), Group(Lit('ß'), 'i')])
+    if r < 0.83:
+        # branches that differ in their first character and continue identically (edge merging on de-duplication)
+        heads = R.sample(['a', 'b', 'd', 'é', 'ü', '0', 'z', '中', '\x7f'], R.choice([2, 3]))
+        tail = R.choice([Lit('x'), Cls([('0', '9')]), Cat([Lit('q'), Rep(Lit('r'), 0, None)]), Cls([('a', 'c')])])
+        return Group(Alt([Cat([Lit(h), tail]) for h in heads]))
     if d > 0:
         return Group(gen_regex(R, d - 1, opts))
     return Lit(R.choice(ASCII_L))
